@@ -29,9 +29,9 @@ def canon_model_rows(rows):
     return out
 
 
-def run_real(rc, parts, options=None):
+def run_real(rc, parts, options=None, final_continuation=True):
     text = recipes.recipe_yaml(rc)
-    chain = l1.run_chain(text, parts, trace=False, options=options)
+    chain = l1.run_chain(text, parts, trace=False, options=options, final_continuation=final_continuation)
     return chain, text
 
 
